@@ -508,10 +508,17 @@ def r5_signext(chk, repo, d):
     ev = d.ev
     ld = repo.func(E + "Expression.load")
     chk.analysed(E + "Expression.load")
-    ifs = [s for s in walk_no_nested(ld) if isinstance(s, ast.If)]
-    need(len(ifs) == 1, "Expression.load: expected one guard")
+    ifs = [s for s in ld.body if isinstance(s, ast.If) and any(
+        isinstance(x, ast.BinOp) and isinstance(x.op, ast.RShift)
+        for b in s.body for x in ast.walk(b))]
+    need(len(ifs) == 1, "Expression.load: expected one guard around the "
+         "sign-extending shift pair")
     guard = ifs[0]
     body = guard.body
+    # statements before the guard that only re-bind locals (a default for
+    # `long`, say) are folded first; instruction emission is skipped
+    prelude = [s for s in ld.body[:ld.body.index(guard)]
+               if not isinstance(s, ast.Expr)]
     shift_defs = [s for s in body if isinstance(s, ast.Assign)
                   and unparse(s.targets[0]) == "shift"]
     regs_defs = [s for s in body if isinstance(s, ast.Assign)
@@ -534,6 +541,9 @@ def r5_signext(chk, repo, d):
             env = {"fmt": fmt, "long": long,
                    "self": Obj(None, {"ebpf": fake_ebpf})}
             try:
+                if ev.run_block(prelude, env) is not None:
+                    fails.append(f"{fmt!r}/{long}: returns before the guard")
+                    continue
                 g = bool(ev.truth(ev.eval(guard.test, env)))
             except (Raised, Unknown) as e:
                 fails.append(f"{fmt!r}/{long}: {e}")
@@ -559,6 +569,24 @@ def r5_signext(chk, repo, d):
            "extends exactly the signed formats narrower than the "
            "computation width, by width - 8*size, in the signed view of "
            "that width")
+    # every caller hands its own requested width on
+    sites = [c for f in repo.all_functions([repo.module("ebpfcat.ebpf")])
+             for c in calls_in(f) if isinstance(c.func, ast.Attribute)
+             and c.func.attr == "load" and len(c.args) + len(c.keywords) >= 4]
+    chk.floor("R01.5", "call sites of Expression.load", len(sites), 2)
+    lparams = param_names(ld)
+    need("long" in lparams, "Expression.load lost its width parameter")
+    pos = lparams.index("long") - 1     # without self
+    for c in sites:
+        w = c.args[pos] if len(c.args) > pos else next(
+            (k.value for k in c.keywords if k.arg == "long"), None)
+        ok = isinstance(w, ast.Name) and w.id == "long"
+        chk.ob("R01.5", func_qual(repo, c), f"`{unparse(c)[:50]}` extends to "
+               f"the width its caller was asked for", ok, c,
+               "the width argument is the caller's `long`" if ok else
+               f"width argument is `{unparse(w) if w is not None else 'missing'}`: "
+               f"a signed 1/2/4-byte value loaded for a 64-bit expression "
+               f"is then extended to 32 bits only and enters as 2**32 - |v|")
     # the load itself
     ok = bool(find("self.ebpf.append(Opcode.LD + fmt_to_opcode(fmt), dst, "
                    "src, offset, 0)", ld))
@@ -750,6 +778,34 @@ def r9_width(chk, repo, d):
                    f"a 64-bit request for a 32-bit operand is computed in "
                    f"32 bits and zero-extended" if bad else
                    "the re-bound value only flows into the yield")
+    # the width handed to the emitting helper is the requested one
+    ucal = repo.func(E + "Unary.calculate")
+    ucalls = [c for c in calls_in(ucal) if isinstance(c.func, ast.Attribute)
+              and c.func.attr == "calculate_unary"]
+    need(len(ucalls) == 1 and len(ucalls[0].args) == 2,
+         "Unary.calculate: call of calculate_unary(dst, width) not found")
+    warg = ucalls[0].args[1]
+    others = sorted({n.id for n in ast.walk(warg) if isinstance(n, ast.Name)}
+                    - {"long"})
+    fails = []
+    for L in (True, False):
+        for combo in range(2 ** len(others)):
+            env = {"long": L}
+            for i, nm in enumerate(others):
+                env[nm] = bool(combo >> i & 1)
+            try:
+                got = d.ev.eval(warg, env)
+            except (Unknown, Raised) as e:
+                raise AnalysisError(f"Unary.calculate: cannot fold the width "
+                                    f"argument `{unparse(warg)}`: {e}")
+            if bool(got) != L:
+                fails.append(f"requested long={L}, {env}: emits for "
+                             f"long={got}")
+    chk.ob("R01.9", E + "Unary.calculate", "calculate_unary() receives the "
+           "requested width", not fails, ucalls[0],
+           "; ".join(fails[:3]) or f"`{unparse(warg)}` is the requested "
+           f"width whatever the operand's width: -I in a 64-bit expression "
+           f"must negate in 64 bits")
     # sibling cross-check of calculate_unary
     sibs = [(ci, ci.methods["calculate_unary"]) for ci in
             repo.classes.values() if ci.module.name == "ebpfcat.ebpf"
@@ -829,6 +885,54 @@ def r10_contains(chk, repo, d):
         got = False
     chk.ob("R01.10", E + "Memory.contains", "searches its address", got,
            M.methods.get("contains", M.node), "mI[r5]")
+    # compositional: every way the DSL can nest a register inside an
+    # expression, built with the repository's own operators
+    def reg(no):
+        return d.register(f"r{no}", True, False, False, no=no)
+
+    def mem(addr, fmt="Q"):
+        return Obj(M, {"ebpf": d.ebpf, "address": addr, "fmt": fmt})
+    shapes = {
+        "r5 + 8": lambda: d.binop(ast.Add, reg(5), 8),
+        "r5 - 8": lambda: d.binop(ast.Sub, reg(5), 8),
+        "r3 + r5": lambda: d.binop(ast.Add, reg(3), reg(5)),
+        "r5 * r3": lambda: d.binop(ast.Mult, reg(5), reg(3)),
+        "7 - r5": lambda: d.binop(ast.Sub, 7, reg(5)),
+        "r3 + (r5 << 2)": lambda: d.binop(
+            ast.Add, reg(3), d.binop(ast.LShift, reg(5), 2)),
+        "(r5 & 3) | r2": lambda: d.binop(
+            ast.BitOr, d.binop(ast.BitAnd, reg(5), 3), reg(2)),
+        "-r5": lambda: d.unary("__neg__", reg(5)),
+        "abs(r5)": lambda: d.unary("__abs__", reg(5)),
+        "mQ[r5]": lambda: mem(reg(5)),
+        "mQ[r5 + 8]": lambda: mem(d.binop(ast.Add, reg(5), 8)),
+        "mH[r5 - 2]": lambda: mem(d.binop(ast.Sub, reg(5), 2), "H"),
+        "mI[r3 + r5]": lambda: mem(d.binop(ast.Add, reg(3), reg(5)), "I"),
+        "r2 + mQ[r5 + 8]": lambda: d.binop(
+            ast.Add, reg(2), mem(d.binop(ast.Add, reg(5), 8))),
+        "4 * mH[r5]": lambda: d.binop(ast.Mult, 4, mem(reg(5), "H")),
+        "-mQ[r5 + 8]": lambda: d.unary(
+            "__neg__", mem(d.binop(ast.Add, reg(5), 8))),
+    }
+    fails = []
+    for txt, build in shapes.items():
+        try:
+            o = build()
+            yes = bool(ev.call(ev._dunder(o, "contains"), [5]))
+            no = bool(ev.call(ev._dunder(o, "contains"), [4]))
+        except (Raised, Unknown, TypeError, AnalysisError) as e:
+            fails.append(f"`{txt}`: cannot fold contains(): {e}")
+            continue
+        if not yes:
+            fails.append(f"`{txt}`.contains(5) is False")
+        if no:
+            fails.append(f"`{txt}`.contains(4) is True")
+    chk.ob("R01.10", E + "Expression.contains", f"every operand position of "
+           f"every expression class is searched ({len(shapes)} shapes built "
+           f"with the DSL's operators)", not fails, M.methods.get(
+               "contains", M.node), "; ".join(fails[:4]) or "a register "
+           "is found wherever it occurs, and only there: `r5 = r2 + mQ[r5 + "
+           "8]` must not overwrite r5 before the load")
     cal = repo.func(E + "Binary.calculate")
     cfg = CFG(cal)
     tests = [n for n in cfg.nodes if n.kind == "test" and find(
